@@ -74,9 +74,15 @@ func genTokens(t *rapid.T, label string, allowEmpty bool) []string {
 	return out
 }
 
+func distinctWordsN(t *rapid.T, n int) []string {
+	perm := rapid.Permutation(vocab).Draw(t, "distinctWords")
+	return append([]string(nil), perm[:n]...)
+}
+
 func genCorpus(t *rapid.T) Corpus {
 	n := rapid.IntRange(3, 28).Draw(t, "nDocs")
-	c := Corpus{SegVer: rapid.SampledFrom([]int{1, 1, 2}).Draw(t, "segVer")}
+	// segment version 2 compresses with zstd and costs about five times as much per segment
+	c := Corpus{SegVer: rapid.SampledFrom([]int{1, 1, 1, 1, 1, 1, 1, 2}).Draw(t, "segVer")}
 	for i := 0; i < n; i++ {
 		var d Doc
 		if i > 0 && rapid.IntRange(0, 99).Draw(t, "variant") < 50 {
@@ -119,6 +125,36 @@ func genCorpus(t *rapid.T) Corpus {
 			d.Day = rapid.IntRange(1, 3000).Draw(t, "day")
 		}
 		c.Docs = append(c.Docs, d)
+	}
+	if rapid.IntRange(0, 9).Draw(t, "dfFixup") < 8 {
+		// make sure two terms one document frequency apart share a document with equal tf:
+		// a document holding both once, then single-token documents until the frequencies differ by one
+		ws := distinctWordsN(t, 2)
+		c.Docs = append(c.Docs, Doc{Body: []string{ws[0], ws[1]}})
+		df := func(w string) int {
+			k := 0
+			for _, d := range c.Docs {
+				for _, x := range d.Body {
+					if x == w {
+						k++
+						break
+					}
+				}
+			}
+			return k
+		}
+		a, b := ws[0], ws[1]
+		if df(a) < df(b) {
+			a, b = b, a
+		}
+		for i := 0; i < 6 && df(a)-df(b) != 1; i++ {
+			if df(a) == df(b) {
+				c.Docs = append(c.Docs, Doc{Body: []string{a}})
+			} else {
+				c.Docs = append(c.Docs, Doc{Body: []string{b}})
+			}
+		}
+		n = len(c.Docs)
 	}
 	if n >= 4 {
 		switch rapid.IntRange(0, 4).Draw(t, "cuts") {
